@@ -230,8 +230,21 @@ def Pod.finishTimestamp (p : Pod) : Option (Option Time) :=
 def Pod.requiresKillWithDeletion (p : Pod) : Bool :=
   p.phase == .pending && !p.scheduled && p.startTime.isNone
 
-/-- `PodTask.GetTaskRef` (`none` = panic) -/
-def Pod.taskRef (p : Pod) : Option TaskRef :=
+/-- `PodTask.hasFinishTimestamp`: the time the Pod finished can be told from the Pod — a container
+termination time, or the DeadlineExceeded computation of `GetFinishTimestamp` -/
+def Pod.hasFinishTimestamp (p : Pod) : Bool :=
+  (containerTerminateTime p).isSome ||
+    (p.statusReason == reasonDeadlineExceeded && p.activeDeadlineSeconds.isSome)
+
+/-- the finish time `PodTask.GetTaskRef` records, `fin` being the (non-panicking) result of
+`GetFinishTimestamp` and `ktime.Now() = now`: a finished Pod that cannot tell when it finished
+(`GetFinishTimestamp` fell back to its start / creation time) is recorded with the time of the
+observation (fix of F30) -/
+def Pod.recordedFinish (now : Time) (p : Pod) (fin : Option Time) : Option Time :=
+  if fin.isSome && !p.hasFinishTimestamp then some now else fin
+
+/-- `PodTask.GetTaskRef` with `ktime.Now() = now` (`none` = panic) -/
+def Pod.taskRef (now : Time) (p : Pod) : Option TaskRef :=
   match p.finishTimestamp with
   | none => none
   | some fin => some {
@@ -241,11 +254,11 @@ def Pod.taskRef (p : Pod) : Option TaskRef :=
       retryIndex := p.retryIndex.getD 0
       parallelIndex := p.parallelIndex
       runningTimestamp := p.runningTimestamp
-      finishTimestamp := fin }
+      finishTimestamp := p.recordedFinish now fin }
 
-/-- a Pod seen through the `tasks.Task` interface (`NewPodTask`) -/
-def Pod.task (p : Pod) : Option Task :=
-  match p.taskRef with
+/-- a Pod seen through the `tasks.Task` interface (`NewPodTask`) at time `now` -/
+def Pod.task (now : Time) (p : Pod) : Option Task :=
+  match p.taskRef now with
   | none => none
   | some r => some { name := p.name, ref := r, deletionTimestamp := p.deletionTimestamp }
 
